@@ -42,6 +42,52 @@ CHECKS.update({
             'the end to catch retroactive mutation.', '§6 C16', ''),
 })
 
+PROG_NOTE = ('Program-level: the Dezyne C++ runtime and the Dezyne-generated model header are mocked (harness/cxx, '
+             'DESIGN Appendix B); generated headers get a leading "#pragma once" (guard shim, finding D-7) except in C06.')
+CHECKS.update({
+    'C01': ('Lean theorems C01.* over the wiring semantics (DznModel.Sem): store after assignments, env→comp and comp→env '
+            'forwarding exactly once with intact arguments/reply/out-values, post-then-deliver, arguments in declared order '
+            'for every generated lambda; tie: byte-exact model of Builder.build + real generator output compiled against the '
+            'mock runtime, program traces compared with the model traces, monitor per stimulus.', '§6 C01', PROG_NOTE),
+    'C02': ('Lean theorems C02.* (MTS provides in-events run in dispatcher context through dzn::shell, MTS requires '
+            'out-events are queued by value and delivered in dispatcher context, dangling captures are flagged, STS '
+            'pass-through, accessor types, partition); tie: compiled programs (dispatch flag, posted/shell counters, '
+            'identity, static_assert of accessor types) + text-level capture-list monitor on exotic extern types.', '§6 C02', PROG_NOTE),
+    'C04': ('Lean theorems C04.* (selector refines the holder specification for all histories without foreign release, '
+            'soundness, ungranted claims, deliver-to-selected-only, names from configuration, cfg errors) + proved witness '
+            'of finding D-9; tie: compiled multi-client programs on random claim/release/out histories.', '§6 C04',
+            PROG_NOTE + ' Partial while D-9 is recorded.'),
+    'C06': ('PARTIAL. Lean theorems C06.* on the generator model and the translated include tables (eight files, support '
+            'file names, include closure of support headers, named scope for non-global encapsulees, proved witness of D-8); '
+            'structural clauses monitored on the real file sets; compiler acceptance only sampled (g++: headers alone/twice, '
+            'two prefixes, shell used from a second TU and linked, verbatim files).', '§6 C06',
+            'Compiler acceptance is not provable in the model; seven recorded findings (known_findings.json).'),
+    'C07': ('Monitor: specification lookup (unique member of the scope chain, of the right kind) decides accessor and lambda '
+            'types or demands a library error, on name-clash model families; tie: byte-exact model of the builder; Lean: '
+            'C14.find_fqn_spec (lookup = chain filter) underlies both; C07-specific theorems listed in the evidence.', '§6 C07', ''),
+    'C08': ('Tie: child interpreters with PYTHONHASHSEED 0..15 x shuffled set construction orders, sha256 of all files equal '
+            'across children and equal to the Lean model output; GeneratedContent.hash = model MD5; Lean: order-freedom '
+            'lemmas of the port-selection model and MD5 test vectors.', '§6 C08', ''),
+    'C09': ('Lean theorems C09.* (create succeeds iff no facilities in the prototype, import iff both, ownership/identity '
+            'bookkeeping, failure before the component exists, Locator()/runtime members iff create); tie: compiled '
+            'programs over all 2^3 locator contents x origin.', '§6 C09', PROG_NOTE),
+    'C10': ('Lean theorems C10.* (check_bindings ⇔ all events bound, binding error names the slot, detection of any single '
+            'unbound boundary or component slot, locked after success, all-bound ⇒ success); tie: compiled programs with '
+            'EVERY single slot left unbound in turn.', '§6 C10', PROG_NOTE),
+    'C11': ('PARTIAL. Lean theorems C11.* over an interleaving model (any number of threads, any schedule): inductive mutual '
+            'exclusion invariant, selection accessed only by the lock owner, RAII of the lock handle, no deadlock, proved '
+            'witness of the D-9 race; tie: real shells with a threaded mock pump, 2-3 client threads + dispatcher thread, '
+            'g++ runs monitored against the holder specification, clang++ ThreadSanitizer runs for data races.', '§6 C11',
+            'C++ memory model, std::mutex, the real dzn::pump are not exhibited by the model; schedules are sampled by the OS.'),
+    'C12': ('Lean theorems C12.* (builder state machine is history free, outputs of a history = fresh builds, support files '
+            'stand alone); tie: histories of builds on shared parsed models with deep before/after snapshots, every result '
+            'compared with a fresh interpreter and with the model.', '§6 C12',
+            'Purity of the model is by construction; the substance for the implementation is the tie.'),
+    'C13': ('Tie + monitor: valid cases and every applicable single-fault variation, outcome class and file-name list compared '
+            'with the byte-exact Lean model of Builder.build which carries Python failure modes (internal/deliberate '
+            'errors are representable); generator-labelled expectation as independent oracle.', '§6 C13', ''),
+})
+
 NOT_YET = {}
 
 
@@ -69,7 +115,7 @@ def main():
                                                   'the technique applies, nothing is claimed until the check exists')})
     man = {
         'version': 1,
-        'setup_cmd': 'cd /verif/lean && lake build',
+        'setup_cmd': 'cd /verif && /venv/bin/python harness/extract_literals.py && cd lean && lake build',
         'hooks': {'guard': 'DZNPY_VERIF', 'enable': 'no source hooks are used; checks import /repo/src with '
                   'PYTHONPATH=/repo/src and set DZNPY_VERIF=1 (reserved)',
                   'baseline_off_cmd': 'cd /repo && /venv/bin/python -m pytest -ra -q -p no:cacheprovider '
